@@ -107,6 +107,8 @@ type Path struct {
 	fnsHit    map[*ssa.Function]bool
 	nQueries  int
 	mapOrderRev bool
+	pureChecked  int
+	impure       bool
 	logApps      []*Term
 	model        map[string]uint64 // an assignment satisfying the whole PC (nil = none known)
 	modelMemo    map[int]uint64
@@ -226,6 +228,25 @@ func (p *Path) addPC(c *Term) {
 	}
 }
 
+// pureBV reports whether the path condition and the extra terms are free of
+// uninterpreted functions and real arithmetic.
+func (p *Path) pureBV(extra []*Term) bool {
+	for ; p.pureChecked < len(p.pc); p.pureChecked++ {
+		if p.pc[p.pureChecked].NoEval {
+			p.impure = true
+		}
+	}
+	if p.impure {
+		return false
+	}
+	for _, e := range extra {
+		if e.NoEval {
+			return false
+		}
+	}
+	return true
+}
+
 func (p *Path) sync() {
 	if p.epoch != p.w.sv.epoch {
 		// the solver process was restarted: re-establish this path's frame
@@ -247,6 +268,8 @@ func (p *Path) query(extra ...*Term) Res {
 		sv.Assert(e)
 	}
 	ep := sv.epoch
+	sv.PureBV = p.pureBV(extra)
+	sv.HintLarge = len(p.vars) > 48
 	r := sv.Check()
 	p.nQueries++
 	if e := sv.TakeError(); e != "" {
@@ -268,7 +291,15 @@ func (p *Path) queryModel(extra ...*Term) (Res, map[string]ModelValue) {
 		sv.Assert(e)
 	}
 	ep := sv.epoch
+	t0 := time.Now()
+	sv.PureBV = p.pureBV(extra)
+	sv.HintLarge = len(p.vars) > 48
 	r := sv.Check()
+	if d := time.Since(t0); d > 300*time.Millisecond && os.Getenv("POLYSYM_SLOWLOG") != "" {
+		slowN++
+		as := append(append([]*Term{}, p.pc...), extra...)
+		os.WriteFile(fmt.Sprintf("/tmp/slow-%d-%d.smt2", p.w.id, slowN), []byte(fmt.Sprintf("; %v\n", d)+StandaloneScript(p.tt(), as)), 0644)
+	}
 	p.nQueries++
 	if e := sv.TakeError(); e != "" {
 		p.w.noteSolverError(e)
@@ -351,6 +382,8 @@ func (p *Path) simp(t *Term) *Term {
 	p.simpMemo[t.ID] = r
 	return r
 }
+
+var slowN int
 
 const modelCacheMaxVars = 96
 
@@ -639,6 +672,7 @@ func (p *Path) queryModelTerm(t *Term, extra ...*Term) (Res, uint64) {
 	aux := p.tt().NewVar(fmt.Sprintf("aux_%d", t.S.W), t.S, nil)
 	sv.Assert(p.tt().Eq(aux.T, t))
 	ep := sv.epoch
+	sv.PureBV = p.pureBV(append([]*Term{t}, extra...))
 	r := sv.Check()
 	p.nQueries++
 	var val uint64
